@@ -21,7 +21,7 @@ for P in "$@"; do
   if [ "$P" = C27 ]; then
     out=$(VERIF_REPO="$D/r" VERIF_OUT="$D/out" VERIF_EVIDENCE="$D/ev" /verif/bin/vc silent 2>&1)
   else
-    out=$(VERIF_RETRY="${VERIF_RETRY:-0}" VERIF_REPO="$D/r" VERIF_OUT="$D/out" VERIF_EVIDENCE="$D/ev" /verif/bin/vc check -property "$P" -tier quick 2>&1)
+    out=$(VERIF_TIMEOUT="${VERIF_TIMEOUT:-6}" VERIF_RETRY="${VERIF_RETRY:-0}" VERIF_REPO="$D/r" VERIF_OUT="$D/out" VERIF_EVIDENCE="$D/ev" /verif/bin/vc check -property "$P" -tier quick 2>&1)
   fi
   if echo "$out" | grep -q '^VIOLATION'; then
     echo "CAUGHT $P: $(echo "$out" | grep '^VIOLATION' | head -3 | sed 's/replay=[^ ]* //')"
